@@ -146,6 +146,8 @@ def run(chk, build):
             o = options(g0.r, i, tier)
             g = gen.Gen(g0.r.randrange(10 ** 9), datetime="IsoDateString" in o["rn"])
             s = g.literal_heavy() if i % 16 == 7 else g.family() if i % 16 == 11 else g.variants() if i % 16 == 3 else g.samples(depth=3)
+        if i >= len(corpus) and i % 8 == 5:
+            s = g.type_twin(s)
         why, tags = oracle(s, o)
         info = {"samples": s, "options": {k: (list(v) if isinstance(v, tuple) else v) for k, v in o.items()}}
         chk.count(key=(repr(s), repr(sorted(info["options"].items()))), sample=info if len(chk.samples) < 3 else None)
